@@ -50,6 +50,9 @@ pub struct Scenario {
     pub source: Vec<u8>,
     /// a second, different source (its own allocation) that `Open2` opens lexers over
     pub source2: Vec<u8>,
+    /// the first source is preceded by this many zero bytes (0, or a little under 4 GiB: offsets beyond u32::MAX); the
+    /// history then starts with a bump over them
+    pub zero_prefix: u64,
     pub partial: bool,
     pub extras: ExM,
     pub steps: Vec<Step>,
@@ -103,6 +106,7 @@ impl Scenario {
             "pair": self.pair,
             "source_hex": to_hex(&self.source),
             "source2_hex": to_hex(&self.source2),
+            "zero_prefix": self.zero_prefix,
             "source_text": show_bytes(&self.source),
             "partial": self.partial,
             "extras": exm_json(&self.extras),
@@ -114,6 +118,7 @@ impl Scenario {
             pair: v.get("pair")?.as_str()?.to_string(),
             source: from_hex(v.get("source_hex")?.as_str()?)?,
             // replay files written before the second source existed: a copy of the first one
+            zero_prefix: v.get("zero_prefix").and_then(|z| z.as_u64()).unwrap_or(0),
             source2: match v.get("source2_hex") { Some(h) => from_hex(h.as_str()?)?, None => from_hex(v.get("source_hex")?.as_str()?)? },
             partial: v.get("partial")?.as_bool()?,
             extras: exm_from(v.get("extras")?)?,
@@ -190,6 +195,8 @@ pub trait SrcKind {
     /// owner of a private, exactly sized copy of the source
     type Owned;
     fn owned(b: &[u8]) -> Option<Self::Owned>;
+    /// `prefix` zero bytes followed by `b`, without ever touching the zero pages (huge sources: offsets beyond u32::MAX)
+    fn owned_prefixed(prefix: usize, b: &[u8]) -> Option<Self::Owned>;
     fn view(o: &Self::Owned) -> &Self;
     fn as_bytes_(&self) -> &[u8];
 }
@@ -198,6 +205,13 @@ impl SrcKind for str {
     type Owned = Box<str>;
     fn owned(b: &[u8]) -> Option<Box<str>> {
         std::str::from_utf8(b).ok().map(Box::from)
+    }
+    fn owned_prefixed(prefix: usize, b: &[u8]) -> Option<Box<str>> {
+        std::str::from_utf8(b).ok()?;
+        let mut v = vec![0u8; prefix + b.len()];
+        v[prefix..].copy_from_slice(b);
+        // NUL bytes followed by text that was just validated
+        Some(unsafe { String::from_utf8_unchecked(v) }.into_boxed_str())
     }
     fn view(o: &Box<str>) -> &str {
         o
@@ -211,6 +225,11 @@ impl SrcKind for [u8] {
     type Owned = Box<[u8]>;
     fn owned(b: &[u8]) -> Option<Box<[u8]>> {
         Some(Box::from(b))
+    }
+    fn owned_prefixed(prefix: usize, b: &[u8]) -> Option<Box<[u8]>> {
+        let mut v = vec![0u8; prefix + b.len()];
+        v[prefix..].copy_from_slice(b);
+        Some(v.into_boxed_slice())
     }
     fn view(o: &Box<[u8]>) -> &[u8] {
         o
@@ -227,6 +246,12 @@ impl SrcKind for String {
         let mut s = String::from_utf8(b.to_vec()).ok()?;
         s.shrink_to_fit();
         Some(s)
+    }
+    fn owned_prefixed(prefix: usize, b: &[u8]) -> Option<String> {
+        std::str::from_utf8(b).ok()?;
+        let mut v = vec![0u8; prefix + b.len()];
+        v[prefix..].copy_from_slice(b);
+        Some(unsafe { String::from_utf8_unchecked(v) })
     }
     fn view(o: &String) -> &String {
         o
@@ -396,7 +421,12 @@ fn gen_fault_operand(rng: &mut Rng, m: &M, src: &[u8], is_str: bool) -> u64 {
         4 => *rng.pick(&[u64::MAX, u64::MAX - 1, u64::MAX - (len as u64)]),
         5 => {
             // wraps to an in-range boundary t < end  (needs end > 0)
-            let cands: Vec<usize> = (0..m.end.min(len + 1)).filter(|&t| is_boundary(src, is_str, t)).collect();
+            let cands: Vec<usize> = if m.end > (1 << 20) {
+                // a huge source: its first bytes are zeros, every offset there is a boundary
+                vec![0, 1, rng.below(1 << 16), (m.end - 1).min(len), m.end.saturating_sub(1 + rng.below(64)).min(len)].into_iter().filter(|&t| t < m.end && is_boundary(src, is_str, t)).collect()
+            } else {
+                (0..m.end.min(len + 1)).filter(|&t| is_boundary(src, is_str, t)).collect()
+            };
             if cands.is_empty() {
                 u64::MAX
             } else {
@@ -685,11 +715,14 @@ macro_rules! pair_sim {
                 m.fault_seen = true;
             }
 
-            pub fn exec(pair: &str, source: &[u8], source2: &[u8], partial: bool, extras: ExM, mut steps: StepSource, faults: bool) -> Outcome {
+            pub fn exec(pair: &str, source: &[u8], source2: &[u8], zero_prefix: u64, partial: bool, extras: ExM, mut steps: StepSource, faults: bool) -> Outcome {
                 let mut stats = Stats::default();
                 let mut done: Vec<Step> = Vec::new();
                 // exact-size private allocation
-                let owned = match <$Src as SrcKind>::owned(source) {
+                // one huge source at a time: 16 workers x 4 GiB of address space could be refused by the kernel
+                if zero_prefix > 0 { stats.hit("probe_run_on_a_source_beyond_4_gib"); }
+                let _huge_guard = if zero_prefix > 0 { Some(HUGE_SOURCE_LOCK.lock().unwrap_or_else(|e| e.into_inner())) } else { None };
+                let owned = match if zero_prefix > 0 { <$Src as SrcKind>::owned_prefixed(zero_prefix as usize, source) } else { <$Src as SrcKind>::owned(source) } {
                     Some(s) => s,
                     None => {
                         eprintln!("api-sim: source of a str pair is not valid UTF-8");
@@ -711,11 +744,23 @@ macro_rules! pair_sim {
                 let bytes_all: [&[u8]; 2] = [bytes, <$Src as SrcKind>::as_bytes_(src2)];
 
                 let ex0 = ExM { force: extras.force && faults, ..extras };
-                let mut handles: Vec<H> = vec![H::LA(if partial {
+                // a constructor is code under test too: if it panics on a source that is perfectly legal, that is the verdict
+                let first = catch(|| if partial {
                     Lexer::partial_with_extras(src, <$EA as Ex>::from_model(ex0))
                 } else {
                     Lexer::with_extras(src, <$EA as Ex>::from_model(ex0))
-                })];
+                });
+                let first = match first {
+                    Ok(l) => l,
+                    Err(p) => {
+                        return Outcome {
+                            scenario: Scenario { pair: pair.to_string(), source: source.to_vec(), source2: source2.to_vec(), zero_prefix, partial, extras, steps: done },
+                            stats,
+                            violation: Some(violation!("NEW-panic", 0, "init", "", "constructing a lexer over a {}-byte source panicked: {}", bytes.len(), p)),
+                        };
+                    }
+                };
+                let mut handles: Vec<H> = vec![H::LA(first)];
                 let mut models: Vec<M> = vec![M {
                     src: 0, def: 0, start: 0, end: 0, prefix: partial, ex: ex0, spanned: false, alive: true, corrupt: false,
                     bumped_since_next: false, last_none: false, fault_seen: false,
@@ -733,7 +778,12 @@ macro_rules! pair_sim {
                         StepSource::Gen { rng, remaining } => {
                             if *remaining == 0 { break; }
                             *remaining -= 1;
-                            gen_step(rng, &models, &bytes_all, is_str, faults)
+                            if zero_prefix > 0 && done.is_empty() {
+                                // a huge source: first of all bump over the zero bytes (lexing 4 GiB of them is not the point)
+                                Step { h: 0, op: Op::Bump(zero_prefix) }
+                            } else {
+                                gen_step(rng, &models, &bytes_all, is_str, faults)
+                            }
                         }
                     };
                     done.push(step.clone());
@@ -1123,7 +1173,7 @@ macro_rules! pair_sim {
                 }
                 let _ = stepno;
                 Outcome {
-                    scenario: Scenario { pair: pair.to_string(), source: source.to_vec(), source2: source2.to_vec(), partial, extras, steps: done },
+                    scenario: Scenario { pair: pair.to_string(), source: source.to_vec(), source2: source2.to_vec(), zero_prefix, partial, extras, steps: done },
                     stats,
                     violation,
                 }
@@ -1140,13 +1190,15 @@ pair_sim!(pair_manual, ManA, ManB, ExA, ExB, String);
 
 const PAIRS: [&str; 5] = ["modes", "bytes", "callbacks", "anchors", "manual"];
 
-fn exec_pair(pair: &str, source: &[u8], source2: &[u8], partial: bool, extras: ExM, steps: StepSource, faults: bool) -> Outcome {
+static HUGE_SOURCE_LOCK: std::sync::Mutex<()> = std::sync::Mutex::new(());
+
+fn exec_pair(pair: &str, source: &[u8], source2: &[u8], zero_prefix: u64, partial: bool, extras: ExM, steps: StepSource, faults: bool) -> Outcome {
     match pair {
-        "modes" => pair_modes::exec(pair, source, source2, partial, extras, steps, faults),
-        "bytes" => pair_bytes::exec(pair, source, source2, partial, extras, steps, faults),
-        "callbacks" => pair_callbacks::exec(pair, source, source2, partial, extras, steps, faults),
-        "anchors" => pair_anchors::exec(pair, source, source2, partial, extras, steps, faults),
-        "manual" => pair_manual::exec(pair, source, source2, partial, extras, steps, faults),
+        "modes" => pair_modes::exec(pair, source, source2, zero_prefix, partial, extras, steps, faults),
+        "bytes" => pair_bytes::exec(pair, source, source2, zero_prefix, partial, extras, steps, faults),
+        "callbacks" => pair_callbacks::exec(pair, source, source2, zero_prefix, partial, extras, steps, faults),
+        "anchors" => pair_anchors::exec(pair, source, source2, zero_prefix, partial, extras, steps, faults),
+        "manual" => pair_manual::exec(pair, source, source2, zero_prefix, partial, extras, steps, faults),
         _ => {
             eprintln!("api-sim: unknown pair {pair:?}");
             std::process::exit(2)
@@ -1155,7 +1207,7 @@ fn exec_pair(pair: &str, source: &[u8], source2: &[u8], partial: bool, extras: E
 }
 
 fn replay(sc: &Scenario, faults: bool) -> Outcome {
-    exec_pair(&sc.pair, &sc.source, &sc.source2, sc.partial, sc.extras, StepSource::Replay(sc.steps.iter()), faults)
+    exec_pair(&sc.pair, &sc.source, &sc.source2, sc.zero_prefix, sc.partial, sc.extras, StepSource::Replay(sc.steps.iter()), faults)
 }
 
 // ---------------------------------------------------------------------------------------------
@@ -1239,7 +1291,10 @@ fn run_one(seed: u64, mode: &str, index: u64, want_sample: bool) -> RunReport {
         1..=3 => rng.range(5, 20),
         _ => rng.range(21, 40),
     };
-    let out = exec_pair(pair, &source, &source2, partial, extras, StepSource::Gen { rng: &mut rng, remaining: nsteps }, faults);
+    // one run in a few thousand reads a source of a little over 4 GiB (lazily mapped zero pages + a short tail): offsets
+    // that do not fit 32 bits
+    let zero_prefix: u64 = if index % 4001 == 17 && source.len() <= 64 { (1u64 << 32) - rng.below(48) as u64 } else { 0 };
+    let out = exec_pair(pair, &source, &source2, zero_prefix, partial, extras, StepSource::Gen { rng: &mut rng, remaining: nsteps }, faults);
     report(out, faults, seed, index, want_sample)
 }
 
